@@ -34,6 +34,16 @@ MODEL_FUEL = 4000             # fuel for model evaluation (C12_fuel_irrelevant: 
 ROUNDS = 400000               # event-loop rounds per awaited operation
 
 
+# ============================================================================= translator (tie 1)
+def regen(ctx):
+    """Gen/C12Shape.v: control-flow skeletons and constants of the anchored functions, from the
+    current source; fail closed (any unrecognised shape raises and breaks the obligation)."""
+    from translate import c12_shape
+    skeletons, consts = c12_shape.collect()
+    ctx.write_gen('C12Shape', c12_shape.render(skeletons, consts))
+    ctx.extra['translator'] = {'functions': len(skeletons), 'constants': len(consts)}
+
+
 # ============================================================================= UUID helpers
 def mk_uuid(u):
     from bumble.core import UUID
@@ -596,6 +606,15 @@ def db_model_expr(case):
            f'{s["h"]} {s["end"]})' for s in prim]
     dss = [f'outcome_obs (discover_descriptors {F} (fun _ s => srv_find_information {mtu} db s {c["end"]}) {c["vh"]} {c["end"]})'
            for s in prim for c in s['chars']]
+    pick = [c['uuid'] for s in services if s['primary'] for c in s['chars']]
+    svcl = '[' + '; '.join(f'({s["h"]}, {s["end"]})' for s in prim) + ']'
+    if pick and prim:
+        call = (f'(let svcs := {svcl} in let end_of st := match find (fun p => andb (fst p <=? st) (st <=? snd p)) svcs '
+                f'with Some p => snd p | None => 0 end in '
+                f'outcome_obs (discover_characteristics_all (fun _ st => srv_read_by_type {mtu} db UUID_CHARACTERISTIC st (end_of st)) '
+                f'svcs [{coq_uuid(pick[0])}] 0%nat []))')
+    else:
+        call = '(3, [], 0)'
     wrs = []
     for wr in case['writes']:
         c = services[wr['svc']]['chars'][wr['chr']]
@@ -608,7 +627,7 @@ def db_model_expr(case):
             f'outcome_obs (discover_services FUEL (fun _ s => srv_read_by_group {mtu} db UUID_PRIMARY s 65535)), '
             f'[{"; ".join(by_uuid)}], [{"; ".join(inc)}], [{"; ".join(chs)}], [{"; ".join(dss)}], '
             f'outcome_obs (discover_attributes FUEL (fun _ s => srv_find_information {mtu} db s 65535)), '
-            f'[{"; ".join(wrs)}])')
+            f'[{"; ".join(wrs)}], {call})')
 
 
 def mobs(o):
@@ -619,7 +638,7 @@ def mobs(o):
 
 def compare_db(ctx, case, obs, m):
     """model result vs implementation observables"""
-    table, (sok, wf), svcs, by_uuid, inc, chs, dss, attrs, wrs = m
+    table, (sok, wf), svcs, by_uuid, inc, chs, dss, attrs, wrs, chall = m
     diffs = []
     # writes: each write of the case is applied to the value as generated (writes to the same
     # characteristic twice are compared on the response only)
@@ -671,6 +690,9 @@ def compare_db(ctx, case, obs, m):
                     j += 1
     else:
         diffs.append(('services count', len(inc), len(obs['included'])))
+    if obs.get('chars_by_uuid') and obs['services'][0] == 'ok':
+        check('discover_characteristics(uuids, all services)', chall, obs['chars_by_uuid'][1], obs['chars_by_uuid'][2],
+              lambda ents: [[d[1], e, canon_of_pdu_form(d[2], d[3]), d[0]] for h, e, d in ents], 'chars_all')
     check('discover_attributes', attrs, obs['attrs'][0], obs['attrs'][1],
           lambda ents: [[h, canon_of_pdu_form(d[0], d[1])] for h, e, d in ents], 'attrs')
     for name, mv, iv in diffs[:3]:
@@ -716,9 +738,9 @@ async def run_read_impl(case):
 
 
 # ============================================================================= adversarial responders
-PROCS = ['services', 'service', 'included', 'chars', 'descs', 'attrs']
+PROCS = ['services', 'service', 'included', 'chars', 'descs', 'attrs', 'read_by_uuid']
 OPC = {'services': (0x10, 0x11), 'service': (0x06, 0x07), 'included': (0x08, 0x09), 'chars': (0x08, 0x09),
-       'descs': (0x04, 0x05), 'attrs': (0x04, 0x05)}
+       'descs': (0x04, 0x05), 'attrs': (0x04, 0x05), 'read_by_uuid': (0x08, 0x09)}
 
 
 def gen_adv_case(rng):
@@ -836,6 +858,9 @@ def parse_adv_pdu(proc, pdu):
                 s, e = struct.unpack_from('<HH', v)
                 bad, d = u(v[4:])
                 ents.append((h, h, bad, [s, e] + d))
+    elif proc == 'read_by_uuid':
+        for h, v in p.attributes:
+            ents.append((h, h, False, list(v)))
     elif proc == 'chars':
         for h, v in p.attributes:
             if len(v) < 3:
@@ -891,6 +916,8 @@ async def run_adv_impl(case):
         coro = client.discover_characteristics([], svc)
     elif proc == 'descs':
         coro = client.discover_descriptors(chp)
+    elif proc == 'read_by_uuid':
+        coro = client.read_characteristics_by_uuid(UUID.from_16_bits(0x2A00), svc)
     else:
         coro = client.discover_attributes()
     task = asyncio.ensure_future(coro)
@@ -914,6 +941,8 @@ async def run_adv_impl(case):
             res['value'] = [[s.handle, s.end_group_handle] for s in out]
         elif proc == 'chars':
             res['value'] = [[c.handle, c.end_group_handle, int(c.properties)] for c in out]
+        elif proc == 'read_by_uuid':
+            res['value'] = [list(v) for v in out]
         else:
             res['value'] = [[a.handle] for a in out]
     except BaseException as e:   # noqa
@@ -964,6 +993,8 @@ def adv_model_expr(case):
         call = f'discover_characteristics {MODEL_FUEL}%nat {sc} {lo} {hi}'
     elif proc == 'descs':
         call = f'discover_descriptors {MODEL_FUEL}%nat {sc} {lo} {hi}'
+    elif proc == 'read_by_uuid':
+        call = f'read_characteristics_by_uuid {MODEL_FUEL}%nat {sc} {lo} {hi}'
     else:
         call = f'discover_attributes {MODEL_FUEL}%nat {sc}'
     return f'outcome_obs ({call})'
@@ -979,6 +1010,8 @@ def compare_adv(ctx, case, res, m):
             mv = [[d[0], d[1]] for h, e, d in ents]
         elif proc == 'chars':
             mv = [[d[1], e, d[0]] for h, e, d in ents]
+        elif proc == 'read_by_uuid':
+            mv = [list(d) for h, e, d in ents]
         else:
             mv = [[h] for h, e, d in ents]
         model = ['ok', mv, n]
@@ -992,6 +1025,102 @@ def compare_adv(ctx, case, res, m):
     impl = [res['kind'], res.get('value'), len(res['starts'])]
     if model != impl:
         ctx.disagree(f'adversarial {proc}', case, model, impl)
+
+
+# ============================================================================= long read against an adversarial peer
+def gen_advread_case(rng, endless=False, quick=True):
+    mtu = rng.choice([23, 23, 24, 50, 100, 517])
+    if endless:      # up to 0xFFFF/(MTU-1)+1 requests: keep the small MTUs for the thorough tier
+        mtu = rng.choice([100, 247, 517] if quick else [23, 24, 50, 100, 517])
+    full = mtu - 1
+    if endless:
+        # the peer answers every Read Blob with a full part, for ever
+        return {'kind': 'advread', 'mtu': mtu, 'first': full, 'script': [['part', rng.choice([full, full, full + 3])]]}
+    first = rng.choice([full, full, full, full - 1, 0, full + 1])
+    script = []
+    for _ in range(rng.choice([1, 2, 3, 6])):
+        r = rng.below(10)
+        if r < 6:
+            script.append(['part', rng.choice([full, full, full, full + 1, full + 5, 2 * full])])
+        elif r < 8:
+            script.append(['part', rng.choice([0, 1, full - 1])])
+        else:
+            script.append(['err', rng.choice([0x0B, 0x07, 0x01, 0x02, 0x0E])])
+    if script[-1][0] == 'part' and script[-1][1] >= full:      # the last response is repeated: make it a final one
+        script.append(rng.choice([['part', 0], ['part', full - 1], ['err', 0x0B], ['err', 0x0E]]))
+    return {'kind': 'advread', 'mtu': mtu, 'first': first, 'script': script}
+
+
+async def run_advread_impl(case):
+    from bumble import att, gatt_client
+    FakeConn = make_conn_class()
+    budget = 70000 // (case['mtu'] - 1) + 10
+    state = {'n': 0, 'over': False}
+    offsets = []
+    loop = asyncio.get_running_loop()
+    holder = {}
+
+    def on_request(pdu):
+        if pdu[0] == 0x0A:
+            rsp = bytes([0x0B]) + value_bytes(case['first'], 1)
+        else:
+            offsets.append(struct.unpack_from('<H', pdu, 3)[0])
+            if len(offsets) > budget:
+                state['over'] = True
+                return
+            kind, arg = case['script'][min(state['n'], len(case['script']) - 1)]
+            state['n'] += 1
+            rsp = bytes([0x0D]) + value_bytes(arg, 2) if kind == 'part' else bytes([0x01, 0x0C, 3, 0, arg])
+        loop.call_soon(lambda: holder['client'].on_gatt_pdu(att.ATT_PDU.from_bytes(rsp)))
+
+    conn = FakeConn(1, on_request)
+    conn.att_mtu = case['mtu']
+    client = gatt_client.Client(conn)
+    holder['client'] = client
+    task = asyncio.ensure_future(client.read_value(3))
+    for _ in range(budget * 30 + 100):
+        if task.done() or state['over']:
+            break
+        await asyncio.sleep(0)
+    res = {'offsets': offsets if len(offsets) < 40 else offsets[:20] + offsets[-20:], 'requests': len(offsets),
+           'increasing': all(b > a for a, b in zip(offsets, offsets[1:])), 'over': state['over']}
+    if not task.done():
+        task.cancel()
+        try:
+            await task
+        except BaseException:
+            pass
+        res['kind'] = 'pending'
+        return res
+    try:
+        res['kind'], res['value'] = 'ok', len(task.result())
+    except BaseException as e:  # noqa
+        res['kind'], res['value'] = 'exc', exc_code(e)
+    return res
+
+
+def advread_model_expr(case):
+    """the blob responder as a function of the offset: the i-th request's offset is known from
+    the lengths of the parts before it"""
+    mtu, full = case['mtu'], case['mtu'] - 1
+    table, off, i = [], case['first'], 0
+    script = case['script']
+    if len(script) == 1 and script[0][0] == 'part' and script[0][1] >= full:
+        kind, arg = script[0]
+        blob = f'(fun _ => VVal (repeat 0 {arg}%nat))'
+    else:
+        while i < len(script) + 2 and off <= 0xFFFF:
+            kind, arg = script[min(i, len(script) - 1)]
+            table.append((off, kind, arg))
+            if kind == 'err' or arg < full:
+                break
+            off += arg
+            i += 1
+        cases = ''.join(f'if off =? {o} then {("VVal (repeat 0 %d%%nat)" % a) if k == "part" else ("VErr %d" % a)} else '
+                        for o, k, a in table)
+        blob = f'(fun off => {cases}VNone)'
+    return (f'(match read_value {70000 // full + 20}%nat (VVal (repeat 0 {case["first"]}%nat)) {blob} {mtu} false with '
+            f'RDone v => (0, Z.of_nat (List.length v)) | RRaised c => (1, c) | ROutOfFuel => (2, 0) end)')
 
 
 # ============================================================================= notifications / indications
@@ -1446,6 +1575,8 @@ def run_impl(case):
         return asyncio.run(run_notify_impl(case))
     if case['kind'] == 'read':
         return asyncio.run(run_read_impl(case))
+    if case['kind'] == 'advread':
+        return asyncio.run(run_advread_impl(case))
     if case['kind'] == 'link':
         return asyncio.run(run_link_impl(case))
     raise ValueError(case['kind'])
@@ -1477,6 +1608,13 @@ def judge(ctx, case, obs):
     elif k == 'link':
         for sig, text in link_oracle(case, obs):
             ctx.violation(sig, text, case)
+    elif k == 'advread':
+        # a read ends: offsets strictly increase (so at most 0xFFFF/(MTU-1)+1 Read Blob requests fit
+        # the 2-byte offset), the budget is not exceeded, and the call returns or raises
+        if obs['over'] or not obs['increasing'] or obs['kind'] == 'pending':
+            ctx.violation('nonterm:read_value', f'read_value at ATT_MTU {case["mtu"]} against a peer answering {case["script"]}: '
+                                                f'{obs["requests"]} Read Blob requests, offsets increasing: {obs["increasing"]}, '
+                                                f'outcome {obs["kind"]}', case)
 
 
 def run(ctx):
@@ -1512,6 +1650,8 @@ def run(ctx):
         cases.append(gen_adv_case(rng))
     for _ in range(ctx.n(100, 2000)):
         cases.append(gen_notify_case(rng))
+    for k in range(ctx.n(40, 600)):
+        cases.append(gen_advread_case(rng, endless=(k % 20 == 0), quick=ctx.quick()))
     for k in range(ctx.n(6, 40)):
         c = gen_db_case(rng, True)
         c['kind'] = 'link'
@@ -1556,6 +1696,9 @@ def run(ctx):
             if es:
                 exprs.append('[' + '; '.join(es) + ']')
                 owners.append((i, 'notify', idx))
+        elif case['kind'] == 'advread':
+            exprs.append(advread_model_expr(case))
+            owners.append((i, 'advread', None))
         elif case['kind'] == 'read':
             v = coq_value(case['vlen'], case['salt'])
             exprs.append(f'routcome_obs (read_from_server {case["vlen"] + 1}%nat {obs["mtu"]} {v})')
@@ -1594,6 +1737,10 @@ def run(ctx):
         elif kind == 'read':
             nontrivial = obs['requests'] >= 2
             ctx.count('read.requests', obs['requests'])
+        elif kind == 'advread':
+            nontrivial = obs['requests'] >= 2
+            ctx.count('advread.requests', obs['requests'])
+            ctx.count('advread.outcome.' + obs['kind'])
         elif kind == 'link':
             ctx.count('link.setup.' + str(obs.get('setup')))
             ctx.count('link.eatt_indications', len(obs.get('eatt') or []))
@@ -1606,6 +1753,12 @@ def run(ctx):
                 compare_adv(ctx, case, obs, m)
             elif k2 == 'notify':
                 compare_notify(ctx, case, obs, extra, m)
+            elif k2 == 'advread':
+                code, v = m
+                mv = ['ok', v] if code == 0 else ['exc', v if v >= 0 else -1] if code == 1 else ['fuel', None]
+                iv = [obs['kind'], obs.get('value')]
+                if mv != iv:
+                    ctx.disagree('long read against an adversarial peer', case, mv, iv)
             elif k2 == 'read':
                 code, v = m
                 mv = ['ok', bytes(v).hex()] if code == 0 else ['exc', v]
